@@ -2003,6 +2003,9 @@ int32_t tls13Encrypt(ssl_t *ssl,
 {
     ssl->outRecType = recordType;
     ssl->outRecLen = recordLen;
+#ifdef MATRIXSSL_VERIF
+    MATRIX_VERIF_EV(MXV_SEAL, ssl, pt[ptLen - 1], 0, pt, ptLen);
+#endif
 
     return ssl->encrypt(ssl, pt, ct, ptLen);
 }
